@@ -202,6 +202,17 @@ def run(ctx):
     ctx.ob("C03.PROMOTE", fix, "... or one of hour/minute/second/microsecond is set (is not None)",
            notnone == {"hour", "minute", "second", "microsecond"}, construct="_has_time absolute operands",
            detail="tested with `is not None`: %s" % sorted(notnone))
+    fcfg = ctx.cfg(fix)
+    tnodes = [n for n in fcfg.live_nodes() if n.kind == "branch" and n.ast is test.test]
+    late = []
+    if tnodes:
+        for n in fcfg.reach(tnodes):
+            if n.kind == "stmt" and isinstance(n.ast, (ast.Assign, ast.AugAssign)):
+                for t in ast.walk(n.ast.targets[0] if isinstance(n.ast, ast.Assign) else n.ast.target):
+                    if isinstance(t, ast.Attribute) and t.attr in ("hours", "minutes", "seconds", "microseconds") and isinstance(t.ctx, ast.Store):
+                        late.append(stmt_text(n))
+    ctx.ob("C03.PROMOTE", fix, "_has_time is computed from the NORMALISED fields: no time field is written after the test (24 hours that carried into a day leave no time)",
+           bool(tnodes) and not late, construct="_has_time after the carries", detail="; ".join(late), analysis="CFG reachability (order of effects)")
     sets = [src(s.value) for s in test.body if isinstance(s, ast.Assign)] + [src(s.value) for s in test.orelse if isinstance(s, ast.Assign)]
     ctx.ob("C03.PROMOTE", fix, "_has_time is 1 on the true branch and 0 otherwise", sets == ["1", "0"], construct="_has_time values %s" % sets)
     prom = [n for n in cfg.live_nodes() if n.kind == "stmt" and isinstance(n.ast, ast.Assign) and "fromordinal" in src(n.ast.value)]
